@@ -81,6 +81,12 @@ var templates = []tmpl{
 	{name: "augment-through-an-implicit-case-brings-a-choice", clean: true, files: []string{
 		`module m { ` + hdr("m") + ` container c { choice ch { container x { leaf l { type string; } } } %PAD } }`,
 		`module b { ` + hdr("b") + ` import m { prefix m; } augment /m:c/m:ch/m:x/m:x { choice inner { leaf p { type string; } container q { choice deeper { leaf-list r { type string; } } } } leaf plain { type string; } } }`}},
+	{name: "augment-of-an-rpc-or-action-itself", augment: true, files: []string{
+		`module m { ` + hdr("m") + ` yang-version 1.1; rpc r { input { leaf i { type string; } } } container c { action a { input { leaf j { type string; } } } %PAD } }`,
+		`module b { ` + hdr("b") + ` import m { prefix m; } augment /m:%OPPATH { leaf y { type string; } } }`}},
+	{name: "not-supported-twice-in-one-deviation", files: []string{
+		`module m { ` + hdr("m") + ` container c { leaf x { type string; } leaf y { type string; } %PAD } }`,
+		`module d { ` + hdr("d") + ` import m { prefix m; } deviation /m:c/m:x { deviate not-supported; deviate not-supported; } }`}},
 	{name: "not-supported-on-rpc-input-or-output", clean: true, gone: []string{"r"}, files: []string{
 		`module m { ` + hdr("m") + ` rpc r { input { leaf i { type string; } } output { leaf o { type string; } } } %PAD }`,
 		`module d { ` + hdr("d") + ` import m { prefix m; } deviation /m:r/m:%IO { deviate not-supported; } }`}},
@@ -140,6 +146,7 @@ func Run(j *job.Job, s *job.Sink) {
 			txt = strings.ReplaceAll(txt, "%ANY", []string{"ax", "ad"}[r.Intn(2)])
 			txt = strings.ReplaceAll(txt, "%IO", io)
 			txt = strings.ReplaceAll(txt, "%DIGIT", digit)
+			txt = strings.ReplaceAll(txt, "%OPPATH", []string{"r", "c/m:a"}[r.Intn(2)])
 			txt = strings.ReplaceAll(txt, "%GONE", []string{"/m:top/m:box", "/m:top"}[r.Intn(2)])
 			txt = strings.ReplaceAll(txt, "%LEAFY", []string{"lf", "ll", "ax", "ad"}[r.Intn(4)])
 			txt = strings.ReplaceAll(txt, "%EMPTYBODY", []string{"uses nothing;", "description \"nothing\";", "when \"../m:lf\";", "uses nothing; reference \"r\";", ""}[r.Intn(5)])
